@@ -38,6 +38,21 @@ pub struct IndexStats {
     linear_scans: usize,
 }
 
+/// Index key for a value, consistent with `FactValue`'s `==`: `-0.0` and `0.0` share a key,
+/// and a value that is not equal to itself (NaN, or an array containing one) has no key at all,
+/// exactly as a linear `==` scan never finds it.
+fn index_key(value: &FactValue) -> Option<String> {
+    match value {
+        FactValue::Float(f) if f.is_nan() => None,
+        FactValue::Float(f) if *f == 0.0 => Some("Float(0.0)".to_string()),
+        FactValue::Array(items) => {
+            let keys: Option<Vec<String>> = items.iter().map(index_key).collect();
+            keys.map(|k| format!("Array([{}])", k.join(", ")))
+        }
+        other => Some(format!("{:?}", other)),
+    }
+}
+
 impl AlphaMemoryIndex {
     /// Create new alpha memory index
     pub fn new() -> Self {
@@ -54,8 +69,7 @@ impl AlphaMemoryIndex {
 
         // Update all existing indexes
         for (field_name, index) in &mut self.indexes {
-            if let Some(value) = fact.get(field_name) {
-                let key = format!("{:?}", value);
+            if let Some(key) = fact.get(field_name).and_then(index_key) {
                 index.entry(key).or_insert_with(Vec::new).push(idx);
             }
         }
@@ -69,7 +83,9 @@ impl AlphaMemoryIndex {
     pub fn filter(&self, field: &str, value: &FactValue) -> Vec<&TypedFacts> {
         // Try index lookup first
         if let Some(index) = self.indexes.get(field) {
-            let key = format!("{:?}", value);
+            let Some(key) = index_key(value) else {
+                return Vec::new();
+            };
 
             if let Some(indices) = index.get(&key) {
                 return indices.iter().map(|&i| &self.facts[i]).collect();
@@ -96,8 +112,10 @@ impl AlphaMemoryIndex {
 
         // Try index lookup first
         if let Some(index) = self.indexes.get(field) {
-            let key = format!("{:?}", value);
             self.stats.indexed_lookups += 1;
+            let Some(key) = index_key(value) else {
+                return Vec::new();
+            };
 
             if let Some(indices) = index.get(&key) {
                 return indices.iter().map(|&i| &self.facts[i]).collect();
@@ -124,8 +142,7 @@ impl AlphaMemoryIndex {
 
         // Build index from existing facts
         for (idx, fact) in self.facts.iter().enumerate() {
-            if let Some(value) = fact.get(&field) {
-                let key = format!("{:?}", value);
+            if let Some(key) = fact.get(&field).and_then(index_key) {
                 index.entry(key).or_insert_with(Vec::new).push(idx);
             }
         }
